@@ -55,6 +55,53 @@ def find_apps(t, pat, out, depth=0):
             find_apps(a, pat, out, depth + 1)
 
 
+def copier_obligations(mir):
+    """CopyTermState::copy_partial_string: a string reached for the first time at a new lowest
+    reference is registered in pstr_loc_locs under its cell index; on every path that registers it
+    (BTreeMap insert) the string's first cell is overwritten with the marker and the old cell is
+    pushed on the copier's trail as TrailRef::pstr_loc of the SAME cell index (z3: index of the
+    store == index of the trail entry), so that unwind_trail restores it.
+    -> (queries, meta)"""
+    from .smtgen import Encoder
+    ns = [n for n in mir.index if n.endswith("::copy_partial_string") and n.startswith("copier::")]
+    if len(ns) != 1:
+        raise core.Unsupported("copy_partial_string: %s" % ns)
+    b = mir.body(ns[0])
+    heads = util.back_edge_targets(b)
+    paths = core.Executor(b, stop_blocks=tuple(heads), max_depth=500, max_paths=4000).run("bb0")
+    queries, meta = [], []
+    seen = set()
+    for p in paths:
+        if p.end != "return":
+            continue
+        ins = [e for e in p.events if e[0] == "call" and re.search(r"BTreeMap::<.*>::insert$", e[1])]
+        if not ins:
+            continue
+        idxm = [e for e in p.events if e[0] == "call" and e[1].endswith("index_mut")]
+        pl = [e for e in p.events if e[0] == "call" and e[1].endswith("TrailRef::pstr_loc")]
+        push = [e for e in p.events if e[0] == "call" and e[1].endswith("::push") and len(e[2]) > 1 and
+                e[2][1][0] == "agg" and e[2][1][2] and e[2][1][2][0] in [x[3] for x in pl]]
+        enc = Encoder()
+        if idxm and pl and push:
+            q = enc.decls() if False else ""
+            i1, i2 = enc.bv(idxm[-1][2][1]), enc.bv(pl[-1][2][0])
+            q = enc.decls() + "\n(assert (not (= %s %s)))" % (i1, i2)
+        else:
+            q = "(assert true)"
+        key = q
+        if key in seen:
+            continue
+        seen.add(key)
+        queries.append(q)
+        meta.append({"slice": 0, "own_offset_present": True, "window": True,
+                     "expr": "copy_partial_string: registering a string marks its first cell and trails the old "
+                             "cell under the same index (%s)" % ("marker + trail present" if idxm and pl and push
+                                                                 else "marker or trail entry missing")})
+    if not queries:
+        raise core.Unsupported("copy_partial_string: no registering path")
+    return queries, meta
+
+
 def run(thorough=False, prop="C20"):
     try:
         mir, secs, cached = util.get()
@@ -169,9 +216,18 @@ def run(thorough=False, prop="C20"):
         queries.append(q)
         meta.append({"slice": 0, "own_offset_present": True, "window": True,
                      "expr": "mismatch window: start <= pos-3 (or 0), end >= min(pos+4, len), same start on both slices"})
+    if prop == "C20":
+        try:
+            cq, cm = copier_obligations(mir)
+            queries += cq
+            meta += cm
+        except Exception as e:  # noqa
+            log("  mirsmt %s: copier: cannot analyse (%s)" % (prop, e))
+            return {"exit": EXIT_INCONCLUSIVE, "mirsmt_error": str(e)}
     br = smt.check_batch(queries, thorough=thorough)
     res = {"evaluations": len(queries), "distinct_nontrivial": 0, "samples": [],
-           "mirsmt_regions": ["heap::compare_pstr_slices::{closure} (calculate_result)"],
+           "mirsmt_regions": ["heap::compare_pstr_slices::{closure} (calculate_result)",
+                              "CopyTermState::copy_partial_string"],
            "mirsmt_seconds": br["z3_s"]}
     if br["results"] is None or (thorough and br["agree"] is False):
         res["exit"] = EXIT_INCONCLUSIVE
@@ -188,8 +244,21 @@ def run(thorough=False, prop="C20"):
     log("  mirsmt %s (compare_pstr_slices):" % prop + " %d tail-index constructions + mismatch window in compare_pstr_slices, %d "
         "obligations hold, %d violations (z3 %.2fs)" % (n_tail, res["distinct_nontrivial"],
                                                         len(viol), br["z3_s"]))
+    cop = [v for v in viol if "copy_partial_string" in v.get("expr", "")]
+    viol = [v for v in viol if v not in cop]
+    if cop:
+        res["mirsmt_violations"] = cop
+        from .. import prolog
+        rp = prolog.replay_string_copy(cop)
+        if rp["reproduced"]:
+            log("VIOLATION property=%s replay=%s" % (prop, rp["path"]))
+            res["exit"] = EXIT_VIOLATION
+        else:
+            log("  mirsmt %s (copier): the string-copy replay answers as specified (%s) -> inconclusive" % (
+                prop, rp.get("why")))
+            res["exit"] = EXIT_INCONCLUSIVE
     if viol:
-        res["mirsmt_violations"] = viol
+        res.setdefault("mirsmt_violations", []).extend(viol)
         from .. import prolog
         rp = prolog.replay_string_suffix_compare(viol, prop)
         if rp["reproduced"]:
@@ -198,5 +267,6 @@ def run(thorough=False, prop="C20"):
         else:
             log("  mirsmt %s (compare_pstr_slices):" % prop + " model did not reproduce on the binary (%s) -> inconclusive" %
                 rp.get("why"))
-            res["exit"] = EXIT_INCONCLUSIVE
+            if res.get("exit") != EXIT_VIOLATION:
+                res["exit"] = EXIT_INCONCLUSIVE
     return res
